@@ -485,6 +485,7 @@ func (r *rewriter) run() ([]byte, error) {
 	}
 	f := res.(*ast.File)
 	fixLabeledSelects(f)
+	r.addGlobalReset(f)
 	astutil.AddNamedImport(r.fset, f, vrtName, vrtPath)
 	// keep imports used
 	f.Decls = append(f.Decls, &ast.GenDecl{Tok: token.VAR, Specs: []ast.Spec{
@@ -514,6 +515,66 @@ func (r *rewriter) run() ([]byte, error) {
 		return nil, e
 	}
 	return buf.Bytes(), nil
+}
+
+// addGlobalReset appends an init() that registers a function re-initialising
+// every package-level variable of this file; vrt.Run calls these functions at
+// the start of every execution, so that state kept in package-level variables
+// cannot leak from one execution into the next (which would break replay
+// determinism, e.g. when a change hoists a buffer to package scope).
+func (r *rewriter) addGlobalReset(f *ast.File) {
+	var stmts []ast.Stmt
+	for _, d := range f.Decls {
+		gd, ok := d.(*ast.GenDecl)
+		if !ok || gd.Tok != token.VAR {
+			continue
+		}
+		for _, sp := range gd.Specs {
+			vs := sp.(*ast.ValueSpec)
+			var lhs []ast.Expr
+			allBlank := true
+			for _, n := range vs.Names {
+				lhs = append(lhs, ast.NewIdent(n.Name))
+				if n.Name != "_" {
+					allBlank = false
+				}
+			}
+			if allBlank {
+				continue
+			}
+			switch {
+			case len(vs.Values) == 0 && vs.Type != nil:
+				for _, n := range vs.Names {
+					if n.Name == "_" {
+						continue
+					}
+					zero := &ast.CallExpr{Fun: &ast.IndexExpr{X: vrtSel("Zero"), Index: vs.Type}}
+					stmts = append(stmts, &ast.AssignStmt{Lhs: []ast.Expr{ast.NewIdent(n.Name)}, Tok: token.ASSIGN, Rhs: []ast.Expr{zero}})
+				}
+			case len(vs.Values) == len(vs.Names):
+				for i, n := range vs.Names {
+					if n.Name == "_" {
+						continue
+					}
+					var rhs ast.Expr = vs.Values[i]
+					if vs.Type != nil {
+						rhs = &ast.CallExpr{Fun: &ast.ParenExpr{X: vs.Type}, Args: []ast.Expr{rhs}}
+					}
+					stmts = append(stmts, &ast.AssignStmt{Lhs: []ast.Expr{ast.NewIdent(n.Name)}, Tok: token.ASSIGN, Rhs: []ast.Expr{rhs}})
+				}
+			case len(vs.Values) == 1:
+				stmts = append(stmts, &ast.AssignStmt{Lhs: lhs, Tok: token.ASSIGN, Rhs: []ast.Expr{vs.Values[0]}})
+			}
+		}
+	}
+	if len(stmts) == 0 {
+		return
+	}
+	reset := &ast.FuncLit{Type: &ast.FuncType{Params: &ast.FieldList{}}, Body: &ast.BlockStmt{List: stmts}}
+	call := &ast.ExprStmt{X: &ast.CallExpr{Fun: vrtSel("RegisterReset"), Args: []ast.Expr{
+		&ast.BasicLit{Kind: token.STRING, Value: strconv.Quote(r.rel)}, reset}}}
+	f.Decls = append(f.Decls, &ast.FuncDecl{Name: ast.NewIdent("init"), Type: &ast.FuncType{Params: &ast.FieldList{}},
+		Body: &ast.BlockStmt{List: []ast.Stmt{call}}})
 }
 
 // assignedName finds the variable or field a make(chan) is assigned to.
